@@ -567,7 +567,7 @@ Definition field_type_table : list (string * string * string) :=
     ("packageParse", "timeoutRecord", "map[uint16]*packageComplete");
     ("session", "header", "*jt808.Header"); ("session", "joinTime", "time.Time");
     ("session", "activeMsgChan", "chan<-*ActiveMessage");
-    ("sessionManager", "operationFuncChan", "chansessionOperationFunc"); ("sessionManager", "keyFunc", "func/1/2") ].
+    ("sessionManager", "operationFuncChan", "chanfunc/1/0"); ("sessionManager", "keyFunc", "func/1/2") ].
 
 (* `go f()` statements: who may start whom *)
 Definition spawn_table : list (gclass * gclass) :=
@@ -710,7 +710,8 @@ Definition root_table : list (string * gclass) :=
 Definition cap_table : list (gclass * string * bool) :=
   [ (GTimer, "*connection", false);        (* the receiver: its fields are judged site by site *)
     (GMgr, "*ActiveMessage", false);       (* write closure: LAct i travels with KWrite i *)
-    (GMgr, "jt808.Header", true) ].        (* join closure: the session's own header copy travels with KJoin *)
+    (GMgr, "jt808.Header", true);          (* join closure: the session's own header copy travels with KJoin *)
+    (GMgr, "*jt808.Header", false) ].      (* ... the same copy, made by a helper and captured through its pointer *)
 
 Definition root_table_n : list (list N * gclass) :=
   Eval vm_compute in map (fun p => (nm (fst p), snd p)) root_table.
@@ -782,9 +783,18 @@ Inductive problem :=
 Definition declared (ds : list gdecl) (st fld : list N) : bool :=
   existsb (fun d => codes_eqb (d_struct d) st && codes_eqb (d_field d) fld) ds.
 
-(* the location class of field st.fld of the current tree: by name, or - the name being unknown - as the one
-   model field of the same struct and declared type that the tree no longer has (a rename); ambiguous = none *)
-Definition resolve_field (ds : list gdecl) (st fld : list N) : option lclass :=
+(* the location class of field st.fld of the current tree: by name; or - the name being unknown - as a RENAMED
+   model field: the candidates are the model fields of the same struct and declared type that the tree no
+   longer declares; there must be at least as many of them as unknown fields of that struct and type (else a
+   field is genuinely NEW); among the candidates' location classes the first one under which EVERY site of the
+   field (goroutine class of its function, role) is an access the model performs is taken - a usage signature:
+   several renamed channels of one type that share a location class are all resolved, two renamed fields of
+   different classes are told apart by who reads and writes them, and a field used in a way no candidate
+   allows is not resolved *)
+Definition site_class_ok (m : cmap) (x : lclass) (s : gsite) : bool :=
+  match cm_get (s_fun s) m with [g] => performs g x (s_write s) | _ => false end.
+
+Definition resolve_field (ds : list gdecl) (ss : list gsite) (m : cmap) (st fld : list N) : option lclass :=
   match lookup_field codes_eqb st fld field_table_n with
   | Some x => Some x
   | None =>
@@ -795,17 +805,19 @@ Definition resolve_field (ds : list gdecl) (st fld : list N) : option lclass :=
                                            match lookup_field codes_eqb st (d_field d') field_table_n with None => true | Some _ => false end) ds in
           let missing := filter (fun p => match p with (s', f', t') =>
                                            codes_eqb s' st && codes_eqb t' (d_type d) && negb (declared ds s' f') end) field_type_table_n in
-          match unknown, missing with
-          | [_], [(s', f', _)] => lookup_field codes_eqb s' f' field_table_n
-          | _, _ => None
-          end
+          if Nat.leb (List.length unknown) (List.length missing) then
+            let mine := filter (fun s => codes_eqb (s_type s) st && codes_eqb (s_field s) fld) ss in
+            let cands := flat_map (fun p => match p with (s', f', _) =>
+                                      match lookup_field codes_eqb s' f' field_table_n with Some x => [x] | None => [] end end) missing in
+            find (fun x => forallb (site_class_ok m x) mine) cands
+          else None
       end
   end.
 
-Definition check_site (ds : list gdecl) (m : cmap) (s : gsite) : list problem :=
+Definition check_site (ds : list gdecl) (ss : list gsite) (m : cmap) (s : gsite) : list problem :=
   match cm_get (s_fun s) m with
   | [] => [PSiteNoClass s]
-  | [g] => match resolve_field ds (s_type s) (s_field s) with
+  | [g] => match resolve_field ds ss m (s_type s) (s_field s) with
            | None => [PSiteUnknownField s]
            | Some x => if performs g x (s_write s) then [] else [PSiteNotPerformed s]
            end
@@ -841,4 +853,4 @@ Definition check_cap (m : cmap) (c : gcap) : list problem :=
 
 Definition graph_problems (ds : list gdecl) (es : list gedge) (ss : list gsite) (cs : list gcap) : list problem :=
   let m := classes_of es in
-  flat_map (check_edge m) es ++ flat_map (check_site ds m) ss ++ flat_map (check_cap m) cs.
+  flat_map (check_edge m) es ++ flat_map (check_site ds ss m) ss ++ flat_map (check_cap m) cs.
